@@ -1200,7 +1200,7 @@ func (w *c05World) runSeq(s int, nodes []c05Node, nsteps int, next func(int) *c0
 				w.emitFsGlob("fsop", s, i, op, beforeA, a.cat, ga)
 				w.emitFsGlob("fsspec", s, i, op, beforeB, b.cat, gb)
 			}
-			if (op.name == "stat" || op.name == "lstat" || op.name == "readdir" || op.name == "walk") && c05PlainPath.MatchString(op.p1) {
+			if (op.name == "stat" || op.name == "lstat" || op.name == "readdir" || op.name == "walk" || op.name == "readlink") && c05PlainPath.MatchString(op.p1) {
 				w.emitFsObs("fsop", s, i, op, beforeA, a.cat, a.val)
 				w.emitFsObs("fsspec", s, i, op, beforeB, b.cat, b.val)
 			}
@@ -1276,6 +1276,8 @@ func c05ModelOp(op *c05Op) bool {
 	switch op.name {
 	case "mkdir", "mkdirall", "remove", "rmdir", "removeall":
 		return c05PlainPath.MatchString(op.p1)
+	case "create", "openfile":
+		return c05PlainPath.MatchString(op.p1)
 	case "rename", "posixrename", "link":
 		return c05PlainPath.MatchString(op.p1) && c05PlainPath.MatchString(op.p2)
 	case "symlink":
@@ -1331,7 +1333,11 @@ func (w *c05World) emitFs(kind string, seq, step int, op *c05Op, before, after m
 		// a non-empty text there)
 		tgt = "empty"
 	}
-	n := c.Case(kind, kvs("cfg", w.cfg), kvi("seq", seq), kvi("step", step), kvs("op", op.name), kvs("path", p1), kvs("path2", p2), kvs("target", tgt), kvs("tree", c05TreeStr(before)))
+	flags := op.flags
+	if op.name == "create" {
+		flags = os.O_RDWR | os.O_CREATE | os.O_TRUNC
+	}
+	n := c.Case(kind, kvs("cfg", w.cfg), kvi("seq", seq), kvi("step", step), kvs("op", op.name), kvs("path", p1), kvs("path2", p2), kvs("target", tgt), kvi("flags", flags), kvs("tree", c05TreeStr(before)))
 	if cat == "perm" {
 		// permissions are not in the model; such a step is recorded but not compared (its expectation would be wrong by design)
 		c.Stat(kind + "_permission_outcomes_not_compared")
@@ -1483,7 +1489,7 @@ func (w *c05World) emitFsObs(kind string, seq, step int, op *c05Op, before map[s
 		}
 		sort.Strings(ents)
 		obs += " ents=" + strings.Join(ents, ";")
-	} else if cat == "ok" {
+	} else if cat == "ok" && op.name != "readlink" {
 		if op.name == "readdir" {
 			var ents []string
 			if val != "" {
